@@ -226,6 +226,17 @@ def float_monitors(chk, tier):
                 dev = float(np.max(np.abs(res["tensor", "random_basis"] - res["tensor", "outside"])))
                 if dev > 1e-9 * sc:
                     chk.violation("float:apply_basis", "tensor applied inside the eigenbasis of a random operator and read outside differs from applying outside: %g" % dev, "monitor", c)
+                # re-use of the shared system objects: tensors built a second time from the same Hamiltonian and system-bath
+                # interaction (after the first ones were used inside basis contexts) must be the same tensors
+                RTt2, _ = agg.get_RelaxationTensor(ta, relaxation_theory="stR")
+                RTo2, _ = agg.get_RelaxationTensor(ta, relaxation_theory="stR", as_operators=True)
+                dev = float(np.max(np.abs(np.array(RTt2.data) - np.array(RTt.data))))
+                if dev > 1e-13 * float(np.max(np.abs(np.array(RTt.data)))):
+                    chk.violation("float:rebuild_tensor", "a Redfield tensor built a second time from the same system differs from the first by %g" % dev, "monitor", c)
+                r2 = np.array(RTo2.apply(qr.qm.Operator(data=X.copy())).data)
+                dev = float(np.max(np.abs(r2 - res["ops", "outside"])))
+                if dev > 1e-12 * sc:
+                    chk.violation("float:rebuild_ops", "an operator-form Redfield tensor built a second time from the same system acts differently (%g)" % dev, "monitor", c)
                 # propagated dynamics, both forms
                 rho0 = np.zeros((n, n), dtype=complex)
                 rho0[n - 1, n - 1] = 1.0
